@@ -39,6 +39,7 @@ struct C11 : Scenario {
         // beam amplifies the 1e-7 rounding of the start's renormalisation (thorough tier: 1.3e-5 after 19 steps at 3 mA).
         // Bit-exact cases (no renormalisation) keep the strong wakes.
         if (c.renorm >= 0) for (auto& cur : c.currents) cur = std::round(cur * 0.1 * 1e7) / 1e7;
+        else if (r.chance(0.35)) { wild_cfg(r, c); c.rf_mod_ampl = c.rf_mod_freq = 0; p.seti("wild", 1); }   // bit-exact cases need no error model: any configuration will do
         c.to_plan(p);
         p.setu("entropy", r.u64());
         p.seti("planner", 0);
